@@ -56,7 +56,7 @@ def run(ctx):
         devs = ("notransitive", "copyshare", "nodep")
         for dev in (devs if ctx.thorough() else devs[ctx.seed % 3:ctx.seed % 3 + 1]):
             ctx.tlc_mc("MC_Record.tla", "Record_dev_%s.cfg" % dev, timeout=600,
-                       expect_violation="GetReflectsCurrent", count=False)
+                       expect_violation="violated", count=False)
     # 2. generation: TLC simulation produces operation sequences (2 records, 2 observers)
     from vlib import Infra
     nb = 300 if ctx.thorough() else 30
